@@ -193,8 +193,20 @@ def assertions(simname='Simulation', fail_at=3, width=3):
         except Exception as e:
             return dict(failed=True, observed='%s at cycle %d' % (type(e).__name__, t),
                         expected='MyErr at cycle %d' % fail_at)
-    return dict(failed=(raised_at != fail_at), observed=dict(raised_at=raised_at),
-                expected=dict(raised_at=fail_at))
+    if raised_at != fail_at:
+        return dict(failed=True, observed=dict(raised_at=raised_at), expected=dict(raised_at=fail_at))
+    # the step on which the assertion fired was still a step: traced, and inspect agrees with it
+    steps_taken = fail_at + 1
+    tr = sim.tracer
+    if len(tr) != steps_taken:
+        return dict(failed=True, observed=dict(trace_len=len(tr)), expected=dict(trace_len=steps_taken))
+    for name in tr.trace:
+        if sim.inspect(name) != tr.trace[name][-1]:
+            return dict(failed=True, observed=dict(wire=name, inspect=sim.inspect(name),
+                                                   last_trace=tr.trace[name][-1]), expected='equal')
+    if tr.trace['o'] != [t % (1 << width) for t in range(steps_taken)]:
+        return dict(failed=True, observed=dict(o=list(tr.trace['o'])), expected='0..%d' % fail_at)
+    return dict(failed=False, observed=dict(raised_at=raised_at), expected=dict(raised_at=fail_at))
 
 
 def illegal_inputs(simname='Simulation', bw=4):
